@@ -191,22 +191,23 @@ mutual
 end
 
 mutual
-  def simpleSB : Stmt → Bool
+  def simpleSB (w : Bool) : Stmt → Bool
     | .expr e => cleanB e
     | .pass_ => true
     | .global_ _ => true
     | .assign ts value => !ts.isEmpty && ts.all simpleTB && cleanB value
     | .augAssign t _ value => simpleTB t && cleanB value
-    | .if_ test body orelse => cleanB test && simpleLB body && simpleLB orelse
-    | .for_ target iter body orelse => simpleTB target && cleanB iter && simpleLB body && simpleLB orelse
+    | .if_ test body orelse => cleanB test && simpleLB w body && simpleLB w orelse
+    | .for_ target iter body orelse => simpleTB target && cleanB iter && simpleLB w body && simpleLB w orelse
+    | .while_ test body orelse => w && cleanB test && noWalrus test && simpleLB w body && simpleLB w orelse
     | _ => false
-  def simpleLB : List Stmt → Bool
+  def simpleLB (w : Bool) : List Stmt → Bool
     | [] => true
-    | s :: ss => simpleSB s && simpleLB ss
+    | s :: ss => simpleSB w s && simpleLB w ss
 end
 
 mutual
-  theorem simpleSB_sound : ∀ (s : Stmt), simpleSB s = true → SimpleS s
+  theorem simpleSB_sound (w : Bool) : ∀ (s : Stmt), simpleSB w s = true → SimpleS w s
     | .expr e, h => .expr _ (cleanB_sound _ (by simpa [simpleSB] using h))
     | .pass_, _ => .pass
     | .global_ _, _ => .global_ _
@@ -221,11 +222,13 @@ mutual
         exact .aug _ _ _ (simpleTB_sound _ h.1) (cleanB_sound _ h.2)
     | .if_ test body orelse, h => by
         simp only [simpleSB, Bool.and_eq_true] at h
-        exact .if_ test body orelse (cleanB_sound _ h.1.1) (simpleLB_sound body h.1.2) (simpleLB_sound orelse h.2)
-    | .while_ .., h => by simp [simpleSB] at h
+        exact .if_ test body orelse (cleanB_sound _ h.1.1) (simpleLB_sound w body h.1.2) (simpleLB_sound w orelse h.2)
     | .for_ target iter body orelse, h => by
         simp only [simpleSB, Bool.and_eq_true] at h
-        exact .for_ target iter body orelse (simpleTB_sound _ h.1.1.1) (cleanB_sound _ h.1.1.2) (simpleLB_sound body h.1.2) (simpleLB_sound orelse h.2)
+        exact .for_ target iter body orelse (simpleTB_sound _ h.1.1.1) (cleanB_sound _ h.1.1.2) (simpleLB_sound w body h.1.2) (simpleLB_sound w orelse h.2)
+    | .while_ test body orelse, h => by
+        simp only [simpleSB, Bool.and_eq_true] at h
+        exact .while_ test body orelse h.1.1.1.1 (cleanB_sound _ h.1.1.1.2) h.1.1.2 (simpleLB_sound w body h.1.2) (simpleLB_sound w orelse h.2)
     | .break_, h => by simp [simpleSB] at h
     | .continue_, h => by simp [simpleSB] at h
     | .annAssign .., h => by simp [simpleSB] at h
@@ -236,21 +239,27 @@ mutual
     | .import_ _, h => by simp [simpleSB] at h
     | .importFrom .., h => by simp [simpleSB] at h
     | .other .., h => by simp [simpleSB] at h
-  theorem simpleLB_sound : ∀ (ss : List Stmt), simpleLB ss = true → ∀ s ∈ ss, SimpleS s
+  theorem simpleLB_sound (w : Bool) : ∀ (ss : List Stmt), simpleLB w ss = true → ∀ s ∈ ss, SimpleS w s
     | [], _ => by intro s hs; cases hs
     | s :: ss, h => by
         simp only [simpleLB, Bool.and_eq_true] at h
         intro x hx
         simp only [List.mem_cons] at hx
         rcases hx with hx | hx
-        · rw [hx]; exact simpleSB_sound s h.1
-        · exact simpleLB_sound ss h.2 x hx
+        · rw [hx]; exact simpleSB_sound w s h.1
+        · exact simpleLB_sound w ss h.2 x hx
 end
 
 /-- the whole module falls under `C01.module_straightline_semantics` -/
-def simpleModuleB (body : List Stmt) : Bool := simpleLB body
+def simpleModuleB (body : List Stmt) : Bool := simpleLB false body
 
-theorem simpleModuleB_sound (body : List Stmt) (h : simpleModuleB body = true) : ∀ s ∈ body, SimpleS s :=
-  simpleLB_sound body h
+theorem simpleModuleB_sound (body : List Stmt) (h : simpleModuleB body = true) : ∀ s ∈ body, SimpleS false s :=
+  simpleLB_sound false body h
+
+/-- ... under `C01.module_with_while_semantics` (the fragment that also has `while`) -/
+def simpleModuleWB (body : List Stmt) : Bool := simpleLB true body
+
+theorem simpleModuleWB_sound (body : List Stmt) (h : simpleModuleWB body = true) : ∀ s ∈ body, SimpleS true s :=
+  simpleLB_sound true body h
 
 end OlVerif.Sem
